@@ -113,6 +113,39 @@ fn structured_frames() -> Vec<(String, Vec<u8>)> {
             v.push((format!("share data pduType2 {:#x} payload {}", ty2, plen), sdi(&share::share_data(SID, 1002, ty2, &vec![0x01; plen]))));
         }
     }
+    // every prefix of the honest body of the data PDUs the client parses (trailing fields absent, lengths consistent),
+    // and every pduType2 with 1..3 payload bytes
+    for (name, ty2, body) in [
+        ("synchronize", 0x1Fu8, vec![0x01u8, 0x00, 0xEA, 0x03]),
+        ("control", 0x14, vec![0x04, 0x00, 0x00, 0x00, 0x00, 0x00, 0x00, 0x00]),
+        ("control granted", 0x14, vec![0x02, 0x00, 0xEF, 0x03, 0xEA, 0x03, 0x00, 0x00]),
+        ("font map", 0x28, vec![0x00, 0x00, 0x00, 0x00, 0x03, 0x00, 0x04, 0x00]),
+        ("set error info", 0x2F, vec![0x05, 0x00, 0x00, 0x00]),
+    ] {
+        for n in 0..=body.len() {
+            v.push((format!("{} PDU with the first {} of its {} body bytes", name, n, body.len()), sdi(&share::share_data(SID, 1002, ty2, &body[..n]))));
+        }
+    }
+    for ty2 in 0..=0x40u8 {
+        for plen in [1usize, 2, 3] {
+            v.push((format!("share data pduType2 {:#x} payload {}", ty2, plen), sdi(&share::share_data(SID, 1002, ty2, &vec![0x01; plen]))));
+        }
+    }
+    // TPKT frames whose body is shorter than an X.224 data header + one MCS byte: every X.224 code byte behind
+    // several length indicators, followed by 0..4 more bytes; every one-byte body; the empty body is block inner-frame's
+    for code in 0..=255u8 {
+        for li in [0x02u8, 0x06, 0x00, 0xFF] {
+            for more in 0..=4usize {
+                if li != 2 && more % 2 == 1 {
+                    continue;
+                }
+                let mut body = vec![li, code];
+                body.extend(std::iter::repeat(0x80).take(more));
+                v.push((format!("TPKT body LI {:#x} code {:#x} + {} bytes", li, code, more), framing::tpkt(&body)));
+            }
+        }
+        v.push((format!("TPKT body of the single byte {:#x}", code), framing::tpkt(&[code])));
+    }
     for (stream, ctype, clen) in [(0u8, 0u8, 0u16), (1, 0x20, 4), (2, 0x61, 0xFFFF), (4, 0xFF, 1)] {
         let mut w = W::new();
         w.u32le(SID).u8(0).u8(stream).u16le(4 + 18).u8(share::PDUTYPE2_PLAY_SOUND).u8(ctype).u16le(clen).bytes(&[1, 2, 3, 4]);
@@ -366,7 +399,7 @@ impl Prop for C06 {
         d
     }
     fn rule(&self) -> String {
-        "cases = (client state 0..5 reached by the honest activation prefix, one server frame with <=1 deviation (<=2 thorough)). PDU kinds: demand-active (Windows capability list and minimal), deactivate-all, synchronize, control, font-map, set-error-info, an unparsed data PDU, two share PDUs in one frame, a confirm-active sent by the server, fast-path bitmap (raw + compressed-with-header rectangles), fast-path pointer/synchronize updates, unknown fast-path codes. Deviations: every byte offset x value set (12 boundary values + honest+-1; all 256 in thorough), every offset as 16/32-bit field in both byte orders x boundary set, every truncation, extensions {+1,+2,+1500}; [inner-*] every byte string of length <=2 (<=3 in thorough for the Data state, and state 0 at the share-control entry) and every string of length 3..4 (..6 in thorough) over 8 boundary bytes at the MCS, share-control (states 0,1,5 in quick, all six in thorough) and fast-path parser entries, and as raw unframed bytes at the frame reader; [pairs, thorough] all pairs of {byte:=00, byte:=FF, truncate} over all offsets, in states 0 and 5. [structured] well-formed frames with consistent length fields in each of the six states: every share-control type x version bits x body length, every pduType2 0..0x40 x payload length, compression / stream bytes, a demand-active carrying a capability of every type 0..0x1F, 0xFF, 0xFFFF x body length, source descriptors of 0..300 bytes in ASCII / Latin-1 / 2-3-4-byte UTF-8 at every alignment / invalid UTF-8 / UTF-16, capability counts off by +-1 / +100, no and 2000 capabilities, every MCS domain-PDU choice 0..63, every disconnect reason, indications on other channels / from other users, every fast-path update code x fragmentation x compression bit x body length, rectangle counts 0..0xFFFF against two present; [frame-pairs] every ordered pair of 10 well-formed share PDUs in one frame, in each of the six states. After the hostile frame an honest PDU is read to expose desynchronisation loops, then, when the hostile frame was tolerated (read returned Ok), the server plays the rest of an honest activation from that state followed by fast-path output and a data PDU, with an input attempt after every step: a tolerated fault must not blow up later. Non-trivial: the frame differs from the honest one.".into()
+        "cases = (client state 0..5 reached by the honest activation prefix, one server frame with <=1 deviation (<=2 thorough)). PDU kinds: demand-active (Windows capability list and minimal), deactivate-all, synchronize, control, font-map, set-error-info, an unparsed data PDU, two share PDUs in one frame, a confirm-active sent by the server, fast-path bitmap (raw + compressed-with-header rectangles), fast-path pointer/synchronize updates, unknown fast-path codes. Deviations: every byte offset x value set (12 boundary values + honest+-1; all 256 in thorough), every offset as 16/32-bit field in both byte orders x boundary set, every truncation, extensions {+1,+2,+1500}; [inner-*] every byte string of length <=2 (<=3 in thorough for the Data state, and state 0 at the share-control entry) and every string of length 3..4 (..6 in thorough) over 8 boundary bytes at the MCS, share-control (states 0,1,5 in quick, all six in thorough) and fast-path parser entries, and as raw unframed bytes at the frame reader; [pairs, thorough] all pairs of {byte:=00, byte:=FF, truncate} over all offsets, in states 0 and 5. [structured] well-formed frames with consistent length fields in each of the six states: every share-control type x version bits x body length, every pduType2 0..0x40 x payload length 0..12, every prefix of the honest body of each data PDU the client parses, TPKT frames whose body is 1..6 bytes long (every X.224 code byte behind 4 length indicators), compression / stream bytes, a demand-active carrying a capability of every type 0..0x1F, 0xFF, 0xFFFF x body length, source descriptors of 0..300 bytes in ASCII / Latin-1 / 2-3-4-byte UTF-8 at every alignment / invalid UTF-8 / UTF-16, capability counts off by +-1 / +100, no and 2000 capabilities, every MCS domain-PDU choice 0..63, every disconnect reason, indications on other channels / from other users, every fast-path update code x fragmentation x compression bit x body length, rectangle counts 0..0xFFFF against two present; [frame-pairs] every ordered pair of 10 well-formed share PDUs in one frame, in each of the six states. After the hostile frame an honest PDU is read to expose desynchronisation loops, then, when the hostile frame was tolerated (read returned Ok), the server plays the rest of an honest activation from that state followed by fast-path output and a data PDU, with an input attempt after every step: a tolerated fault must not blow up later. Non-trivial: the frame differs from the honest one.".into()
     }
     fn assumptions(&self) -> Vec<String> {
         vec!["memory rule: single request > 1 MiB or peak > 16 MiB + 1024 x bytes received".into(), "the six states are reached through RdpClient::read on the raw stack (hooks H3/H4); TLS record handling is not part of this property".into()]
